@@ -193,7 +193,9 @@ def run_case(case):
     if k == 'chunk_bounds':
         from phylib.io.array import chunk_bounds
         out = []
-        for t in chunk_bounds(i['n'], i['cs'], overlap=i['ov']):
+        # overlap=0 is the default of the signature: leave it out on odd lengths so that the default is exercised
+        gen = chunk_bounds(i['n'], i['cs']) if (i['ov'] == 0 and i['n'] % 2) else chunk_bounds(i['n'], i['cs'], overlap=i['ov'])
+        for t in gen:
             out.append([int(x) for x in t])
             if len(out) > 5 * (i['n'] + 5):
                 raise RuntimeError('chunk_bounds yields without end')
